@@ -218,16 +218,17 @@ func OpenWith(pLog, dLog, cLog appendable.Appendable, opts *Options) (*AHtree, e
 	// pSize denotes the size of the latest payload
 	// as payloads are prefixed with the size when written into pLog
 	// pLogSize is calculated with the offset, the size description of the payload and the payload itself
-	t.pLogSize = int64(pOff) + int64(szSize+pSize)
-
 	pLogFileSize, err := pLog.Size()
 	if err != nil {
 		return nil, err
 	}
 
-	if pLogFileSize < t.pLogSize {
+	// offset and size come from disk: compared without wrapping around
+	if pOff > uint64(pLogFileSize) || uint64(szSize)+uint64(pSize) > uint64(pLogFileSize)-pOff {
 		return nil, ErrorCorruptedData
 	}
+
+	t.pLogSize = int64(pOff) + szSize + int64(pSize)
 
 	t.dLogSize = int64(nodesUpto(t.latestSyncedNode) * sha256.Size)
 
@@ -417,16 +418,17 @@ func (t *AHtree) ResetSize(newSize uint64) error {
 		// pSize denotes the size of the latest payload
 		// as payloads are prefixed with the size when written into pLog
 		// pLogSize is calculated with the offset, the size description of the payload and the payload itself
-		pLogSize = int64(pOff) + int64(szSize+pSize)
-
 		pLogFileSize, err := t.pLog.Size()
 		if err != nil {
 			return err
 		}
 
-		if pLogFileSize < pLogSize {
+		// offset and size come from disk: compared without wrapping around
+		if pOff > uint64(pLogFileSize) || uint64(szSize)+uint64(pSize) > uint64(pLogFileSize)-pOff {
 			return ErrorCorruptedData
 		}
+
+		pLogSize = int64(pOff) + szSize + int64(pSize)
 
 		dLogSize = int64(nodesUpto(uint64(cLogSize/cLogEntrySize)) * sha256.Size)
 
@@ -721,6 +723,11 @@ func (t *AHtree) DataAt(n uint64) ([]byte, error) {
 
 	pOff := binary.BigEndian.Uint64(b[:])
 	pSize := binary.BigEndian.Uint32(b[offsetSize:])
+
+	// offset and size come from disk: the payload must lie inside the data log
+	if pOff > uint64(t.pLogSize) || uint64(szSize)+uint64(pSize) > uint64(t.pLogSize)-pOff {
+		return nil, ErrorCorruptedData
+	}
 
 	p := make([]byte, pSize)
 	if pSize > 0 {
